@@ -48,6 +48,12 @@ def _run_shard(modname: str, idx: int, tier: str, shard: Dict[str, Any], workdir
     budget = float(shard.get("budget_s", 120))
     hard = budget * 3 + 240  # wall clock; generous because the CPU budget is what bounds a shard and the machine may be loaded
     t0 = time.time()
+    deadline = float(os.environ.get("VF_DEADLINE", "0") or 0)
+    if deadline and t0 > deadline:
+        return {"error": None, "paths": 0, "ok": 0, "ignored": 0, "unknown": 0, "unknown_reasons": {}, "labels": {},
+                "violations": [], "violation_keys": {}, "samples": [], "exhausted": False, "stopped_by": "tier-wall-cap",
+                "cpu_s": 0.0, "solver_queries": 0, "solver_s": 0.0, "shard": shard.get("name", str(idx)), "shard_index": idx,
+                "shard_wall_s": 0.0}
     try:
         p = subprocess.run(
             [PY, "-m", "vf.sx", modname, str(idx), tier, out],
@@ -101,6 +107,10 @@ def run_property(modname: str, tier: str) -> int:
         with open(shards_file, "w") as f:
             json.dump({"module": modname, "tier": tier, "shards": shard_list}, f)
         os.environ["VF_SHARDS_FILE"] = shards_file
+        # wall-clock cap of the whole tier: shards still running (or not yet started) when it is reached stop exploring
+        # and are reported as not exhausted -- a thorough run can never take unbounded time
+        cap = float(os.environ.get("VERIF_WALL_CAP_S", "480" if tier == "quick" else "3000"))
+        os.environ["VF_DEADLINE"] = str(time.time() + cap)
         results: List[Dict[str, Any]] = []
         with cf.ThreadPoolExecutor(max_workers=NPROC) as ex:
             futs = [ex.submit(_run_shard, modname, i, tier, s, workdir) for i, s in enumerate(shard_list)]
@@ -139,6 +149,8 @@ def run_property(modname: str, tier: str) -> int:
         for r in results:
             if r.get("error") or r.get("hard_timeout"):
                 continue
+            if r.get("stopped_by") == "tier-wall-cap" and r.get("paths", 0) < 5:
+                continue  # the shard hardly ran because the wall-clock cap of the tier was reached (reported as not exhausted)
             if r.get("ok", 0) + sum((r.get("violation_keys") or {}).values()) == 0:
                 twin_ok = False
                 harness_errors.append(f"shard {r['shard']}: vacuous (no path reached the assertion)")
@@ -245,6 +257,7 @@ def run_property(modname: str, tier: str) -> int:
             "exploratory_shards": {"count": len(expl), "exhausted": sum(1 for r in expl if r.get("exhausted")),
                                    "meaning": "shards beyond the exhaustively claimed bound; 'exhaustive' above does not "
                                               "cover them, they only add explored paths"},
+            "tier_wall_cap": {"seconds": cap, "shards_stopped_by_it": sum(1 for r in results if r.get("stopped_by") == "tier-wall-cap")},
             "violating_path_classes": {k: sum(int((r.get("violation_keys") or {}).get(k, 0)) for r in results)
                                        for k in by_key},
             "known_findings_observed": known_lines,
